@@ -323,7 +323,7 @@ class Lexer:
                     self.path_stack[-1].stop = self.pos
                 elif self.env.shorthand_indexes:
                     if match := self.RE_INDEX.match(self.source, self.pos):
-                        self.path_stack[-1].path.append(int(match.group()))
+                        self.path_stack[-1].path.append(self._index(match.group()))
                         self.pos += match.end() - match.start()
                         self.start = self.pos
                         self.path_stack[-1].stop = self.pos
@@ -371,7 +371,7 @@ class Lexer:
                         self.path_stack[-1].stop = self.start
 
                 elif match := self.RE_INDEX.match(self.source, self.pos):
-                    self.path_stack[-1].path.append(int(match.group()))
+                    self.path_stack[-1].path.append(self._index(match.group()))
                     self.pos += match.end() - match.start()
                     self.start = self.pos
                     self.ignore_whitespace()
@@ -775,6 +775,13 @@ class Lexer:
             self.start = self.pos
             return whitespace
         return ""
+
+    def _index(self, digits: str) -> int:
+        try:
+            return int(digits)
+        except ValueError:
+            # The interpreter refuses to convert very long digit strings.
+            self.error("array index is too big")
 
     def error(self, msg: str) -> Never:
         """Emit an error token."""
